@@ -92,6 +92,7 @@ class DealMonitor:
         self.board = 0
         self.order: list = []
         self.discards: dict = {}
+        self.discarded_cards: dict = {}
         self.first_op = True
 
     def begin(self, st: Any) -> None:
@@ -146,6 +147,7 @@ class DealMonitor:
             own = self.cards_before[op.player_index]
             ctx.check(all(c in own for c in op.cards), 'discarded-card-not-held')
             self.discards[op.player_index] = [self.up_before[op.player_index][own.index(c)] for c in op.cards]
+            self.discarded_cards[op.player_index] = list(op.cards)
 
     def end(self, st: Any) -> None:
         """dealing of the street is complete (betting or the next phase started)."""
@@ -162,6 +164,14 @@ class DealMonitor:
                 got = self.hole.get(i, [])
                 ctx.check(len(got) == len(self.discards[i]), 'draw-count', lambda: f'player {i} discarded {len(self.discards[i])} got {len(got)}')
                 ctx.check(sorted(got) == sorted(self.discards[i]), 'draw-facing')
+                # cards that were kept keep their facing
+                for card, status in zip(st.hole_cards[i], st.hole_card_statuses[i]):
+                    if card in self.cards_before[i] and self.cards_before[i].count(card) == 1:
+                        was = self.up_before[i][self.cards_before[i].index(card)]
+                        kept = card not in [c for c in self.discarded_cards.get(i, [])]
+                        if kept:
+                            ctx.check(status == was, 'kept-card-facing-changed',
+                                      lambda: f'player {i} card {card!r}: {was} -> {status}')
             ctx.cover('draw')
         elif self.fallback and k:
             ctx.check(not self.hole, 'hole-cards-dealt-although-deck-cannot-cover')
